@@ -30,6 +30,7 @@ func init() {
 	vHarnesses["vH_C01_liveseg_testpic8s"] = vH_C01_liveseg_testpic8s
 	vHarnesses["vH_C13_liveseg_testpic2s"] = vH_C13_liveseg_testpic2s
 	vHarnesses["vH_C13_liveseg_alt"] = vH_C13_liveseg_alt
+	vHarnesses["vH_C13_liveseg_text"] = vH_C13_liveseg_text
 }
 
 func vH_C01_liveseg_testpic2s() { vLiveSeg(vAsset_testpic_2s(), "V300", "C01") }
@@ -37,6 +38,9 @@ func vH_C01_liveseg_alt()       { vLiveSeg(vAsset_testpic_alt_seg_dur_stl(), "V3
 func vH_C01_liveseg_testpic8s() { vLiveSeg(vAsset_testpic_8s(), "V300", "C01") }
 func vH_C13_liveseg_testpic2s() { vLiveSeg(vAsset_testpic_2s(), "V300", "C13") }
 func vH_C13_liveseg_alt()       { vLiveSeg(vAsset_testpic_alt_seg_dur_stl(), "V300", "C13") }
+
+// a subtitle (stpp) representation of the same asset: events are carried by video only
+func vH_C13_liveseg_text() { vLiveSeg(vAsset_testpic_2s(), "imsc1_txt_sv", "C13") }
 
 var vStubSeg *vSegInfo
 
@@ -156,6 +160,8 @@ func vLiveSeg(a *asset, repID, prop string) {
 		}
 		if perMinute == 0 {
 			vAssert("C13.liveseg.no-event-without-parameter", len(emsgs) == 0)
+		} else if rep.ContentType != "video" {
+			vAssert("C13.liveseg.events-in-video-only", len(emsgs) == 0)
 		} else {
 			want, werr := scte35.CreateEmsgAhead(uint64(start), uint64(end), uint64(ts), perMinute)
 			vAssert("C13.liveseg.kernel-ok", werr == nil)
